@@ -13,15 +13,15 @@ pub const P: u64 = 0xFFFF_FFFF_0000_0001;
 pub fn assembler() -> Assembler {
     Assembler::default()
         .with_library(&stdlib::StdLibrary::default())
-        .expect("stdlib must load")
+        .expect("SUBJECT: stdlib must load")
 }
 
 pub fn assembler_with_kernel(kernel: &str) -> Assembler {
     Assembler::default()
         .with_library(&stdlib::StdLibrary::default())
-        .expect("stdlib must load")
+        .expect("SUBJECT: stdlib must load")
         .with_kernel(kernel)
-        .expect("kernel must assemble")
+        .expect("SUBJECT: kernel must assemble")
 }
 
 /// stack inputs given top-first (element 0 is the top of the stack)
